@@ -7,6 +7,8 @@ LEVEL = "model_checking"
 # model kind -> (program names in MC_Conc, real container kinds, NK, walk compared as a set)
 MODELS = {
     "seq": (["PS1", "PS2", "PS3", "PS4"], ["vector", "list"], 2),
+    "seq-q": (["PQ1"], ["queue"], 2),
+    "seq-k": (["PK1"], ["stack"], 2),
     "map": (["PM1", "PM2"], ["hashtbl", "treetbl"], 2),
     "mmap": (["PL1"], ["listtbl"], 2),
     "umap": (["PU1", "PU2"], ["listtblu"], 2),
@@ -16,6 +18,8 @@ PROGS = {
     "PS2": [[("addlast", 1, 0), ("getat", 0, 0)], [("addlast", 2, 0)], [("popfirst", 0, 0)]],
     "PS3": [[("addfirst", 1, 0), ("poplast", 0, 0)], [("addlast", 2, 0), ("clear", 0, 0)]],
     "PS4": [[("addlast", 1, 0)], [("addlast", 2, 0)], [("addlast", 3, 0)], [("toarray", 0, 0)]],
+    "PQ1": [[("addlast", 1, 0), ("popfirst", 0, 0)], [("addlast", 2, 0), ("getat", 0, 0)], [("popfirst", 0, 0)]],
+    "PK1": [[("addfirst", 1, 0), ("popfirst", 0, 0)], [("addfirst", 2, 0), ("getat", 0, 0)], [("clear", 0, 0)]],
     "PM1": [[("put", 1, 1), ("get", 2, 0)], [("put", 2, 2), ("remove", 1, 0)], [("walk", 0, 0)]],
     "PM2": [[("put", 1, 1), ("put", 1, 2)], [("get", 1, 0), ("remove", 1, 0)], [("clear", 0, 0)]],
     "PL1": [[("put", 1, 1), ("get", 1, 0)], [("put", 1, 2), ("remove", 1, 0)], [("walk", 0, 0)]],
@@ -28,7 +32,7 @@ def lincheck(chk, kind_model, real, hist_file, tag, workers=4):
     """Run LinCheck.tla over a history file; returns (n histories, list of non-linearizable indexes)."""
     wd = pipeline.workdir("conc")
     cfg = os.path.join(wd, "lin-%s.cfg" % tag)
-    vf.write_cfg(cfg, constants=dict(Kind=kind_model, NK=3, SetWalk=(real == "hashtbl")), init="Init", next_="Next")
+    vf.write_cfg(cfg, constants=dict(Kind=kind_model.split("-")[0], NK=3, SetWalk=(real == "hashtbl")), init="Init", next_="Next")
     out = os.path.join(wd, "lin-%s.out" % tag)
     n = vf.count_lines(hist_file)
     if n == 0:
@@ -115,7 +119,7 @@ def run(chk, tier, seed):
     for km, (progs, reals, nk) in MODELS.items():
         for pn in progs:
             cfg = os.path.join(wd, "conc-%s.cfg" % pn)
-            vf.write_cfg(cfg, constants=dict(Kind=km, NK=nk, PreReads=False), subst=dict(Prog=pn), invariants=["Linearizable", "Schedules"])
+            vf.write_cfg(cfg, constants=dict(Kind=km.split("-")[0], NK=nk, PreReads=False), subst=dict(Prog=pn), invariants=["Linearizable", "Schedules"])
             out = os.path.join(wd, "conc-%s.out" % pn)
             r = vf.tlc("MC_Conc", cfg, workers=8, timeout=1200, outfile=out, heap="8g")
             scheds = []
@@ -123,7 +127,7 @@ def run(chk, tier, seed):
                 for line in f:
                     if line.startswith('"SCHED '):
                         scheds.append(json.loads(json.loads(line)[6:]))
-            chk.add_mc("Conc-%s" % pn, r, dict(schedules=len(scheds), kind=km)); vf.tlc_cleanup(r)
+            chk.add_mc("Conc-%s" % pn, r, dict(schedules=len(scheds), kind=km.split("-")[0])); vf.tlc_cleanup(r)
             os.remove(out)
             if not r.ok or not scheds:
                 continue
